@@ -12,7 +12,7 @@ import re
 
 from facts import short_name
 from kinds import (k7_panics, result_blocks, comparisons, k1_constructors, panic_sites,
-                   k2_site_guarded)
+                   k2_site_guarded, bool_payload_edges)
 
 CRATES = ["astria_core.lib", "astria_merkle.lib", "astria_core_crypto.lib",
           "astria_core_address.lib", "astria_conductor.lib", "astria_sequencer.lib",
@@ -52,6 +52,9 @@ TREE_INTERNAL = [
     M + "perfect_left_child", M + "perfect_right_child", M + "perfect_root", M + "complete_root",
     M + "complete_parent_and_sibling", M + "is_perfect",
 ]
+TREE_ONLY = re.compile(
+    r"^(astria_merkle::Tree::|<astria_merkle::LeafBuilder<'_> as core::ops::drop::Drop>::drop$|"
+    r"astria_merkle::(complete_|perfect_)\w+$|astria_merkle::is_leaf_index_in_tree$)")
 TREE_INTERNAL_ALLOWED_CALLERS = re.compile(
     r"^(astria_merkle::Tree::|<astria_merkle::LeafBuilder<'_> as core::ops::drop::Drop>::drop$|"
     r"astria_merkle::(complete_|perfect_)\w+$)")
@@ -70,45 +73,117 @@ def never_errs(prog, owner):
     return True
 
 
+def _guards(body, site_bb, conds):
+    """site is behind every edge set in conds."""
+    return all(bool(e) and body.must_pass_edges(set(e), site_bb) for e in conds)
+
+
 def merkle_invariants(prog, rep=None, rule="W1"):
-    """Structural facts about UncheckedProof::try_into_proof that justify triage entries for
-    code operating on a validated Proof.
-      I1: Ok(Proof) only behind `leaf index in tree` (and the check itself cannot panic);
-      I2: Ok(Proof) only behind an equality between the audit-path length and a depth
-          computed from (leaf_index, tree_size)."""
+    """Structural facts that justify triage entries for code driven by an untrusted Proof.
+
+      I1  the panicking `leaf_index_to_tree_index` is only called (outside Tree-internal code)
+          where the same index was just validated: behind the true edge of
+          `is_leaf_index_in_tree(idx, n)` or the Some edge of `audit_path_len(idx, n)`; the
+          validators themselves (try_into_proof, is_leaf_index_in_tree, error Display) do not
+          reach it unguarded.
+      I2  the audit walk never passes the root: either try_into_proof only accepts a path whose
+          length equals a depth computed from (leaf_index, tree_size) [strict decode], or the
+          walk in reconstruct_root_with_leaf_hash is bounded by `take(audit_path_len(..))`.
+      I3  in audit_path_len the tree-arithmetic calls are behind `tree_size <= MAX_TREE_SIZE`
+          and `is_leaf_index_in_tree` (so next_power_of_two cannot overflow and the climb starts
+          inside the tree)."""
+    inv = {"I1": False, "I2": False, "I3": False}
+    L2T = M + "leaf_index_to_tree_index"
+    APL = M + "audit_path_len"
+    REC = M + "audit::Proof::reconstruct_root_with_leaf_hash"
+    # ---- I3
+    if APL in prog.by_owner:
+        b = prog.main_body(APL)
+        gt = [c for c in comparisons(b) if c.op == "Gt" and c.a == "tree_size"]
+        isin = [c for c in b.calls if c.is_(M + "is_leaf_index_in_tree")]
+        be = bool_payload_edges(b, isin[0]) if isin else None
+        arith = [c for c in b.calls if c.is_(M + "complete_root", M + "complete_parent", L2T)]
+        good = bool(gt) and be is not None and bool(arith)
+        if good:
+            mx = None
+            # the bound is usize::MAX / 2 (a named constant evaluates to that)
+            for c in gt:
+                mx = c.b
+            good = mx is not None and ("MAX_TREE_SIZE" in mx or mx == f"const({(2**64 - 1) // 2})")
+        if good:
+            for c in arith:
+                good &= _guards(b, c.bb, [gt[0].false_edges, be[0]])
+            a = [b.root(x) for x in isin[0].args]
+            good &= a == ["leaf_index", "tree_size"]
+        inv["I3"] = bool(good)
+    # ---- I1
+    ok1 = True
+    reasons = []
+    for owner, calls in prog.callers_of(L2T).items():
+        if TREE_ONLY.search(owner):
+            continue
+        for c in calls:
+            b = c.body
+            idx = b.root(c.args[0])
+            if owner == APL:
+                if not inv["I3"]:
+                    ok1 = False
+                    reasons.append("audit_path_len does not validate before climbing")
+                continue
+            guards = []
+            for g in b.calls:
+                if g.is_(M + "is_leaf_index_in_tree") and b.root(g.args[0]) == idx:
+                    be = bool_payload_edges(b, g)
+                    if be:
+                        guards.append(be[0])
+                if g.is_(APL) and b.root(g.args[0]) == idx:
+                    oe = b.outcome_edges(g)
+                    if oe["kind"] == "match_option":
+                        guards.append(oe["ok"])
+            if not any(e and b.must_pass_edges(set(e), c.bb) for e in guards):
+                ok1 = False
+                reasons.append(f"{owner} calls leaf_index_to_tree_index({idx}) unguarded")
+    inv["I1"] = ok1
+    if reasons:
+        inv["I1_reason"] = "; ".join(reasons)
+    # ---- I2 strict decode
     fn = M + "audit::UncheckedProof::try_into_proof"
     body = prog.main_body(fn)
     oks = result_blocks(body, "Ok")
-    inv = {"I1": False, "I2": False}
-    if not oks:
-        return inv
-    # I1
-    chk = [c for c in body.calls if c.is_(M + "is_leaf_index_in_tree")]
-    for c in chk:
-        oe = body.outcome_edges(c)
-        if oe["kind"] == "bool" and all(body.must_pass_edges(set(oe["ok"]), o) for o in oks):
-            a = " ".join(body.root(x) for x in c.args)
-            if "leaf_index" in a and "tree_size" in a:
-                inv["I1"] = True
-    for cm in comparisons(body):
-        if cm.op in ("Lt", "Gt", "Le", "Ge") and "leaf_index" in cm.a + cm.b and "tree_size" in cm.a + cm.b:
-            if all(body.must_pass_edges(set(cm.true_edges), o) for o in oks) or \
-                    all(body.must_pass_edges(set(cm.false_edges), o) for o in oks):
-                inv["I1"] = True
-    # the validation itself must not be able to panic on the untrusted index
-    seen, _ = prog.reachable_owners([fn])
-    if M + "leaf_index_to_tree_index" in seen:
-        inv["I1"] = False
-        inv["I1_reason"] = "try_into_proof reaches the panicking leaf_index_to_tree_index"
-    # I2
     for cm in comparisons(body):
         if cm.op != "Eq":
             continue
         sides = (cm.a, cm.b)
         for x, y in (sides, sides[::-1]):
             if "audit_path" in x and "leaf_index" in y and "tree_size" in y:
-                if all(body.must_pass_edges(set(cm.true_edges), o) for o in oks):
+                if oks and all(body.must_pass_edges(set(cm.true_edges), o) for o in oks):
                     inv["I2"] = True
+                    inv["I2_how"] = "strict decode"
+    # ---- I2 bounded walk
+    if not inv["I2"] and REC in prog.by_owner and inv["I3"]:
+        b = prog.main_body(REC)
+        tk = [c for c in b.calls if c.matches(r"core::iter::traits::iterator::Iterator::take$")]
+        cp = [c for c in b.calls if c.is_(M + "complete_parent")]
+        it = [c for c in b.calls if c.matches(r"IntoIterator>?::into_iter$") and c.macros
+              and c.macros[0] == "desugar:ForLoop"]
+        good = len(tk) == 1 and bool(cp) and bool(it)
+        if good:
+            a = [b.root(x) for x in tk[0].args]
+            good = a[0].startswith("chunks(self.audit_path,const(32))") and \
+                a[1].startswith("audit_path_len(self.leaf_index,get(self.tree_size))")
+            good &= any(b.root(x.args[0]).startswith("take(chunks(self.audit_path") for x in it)
+            for c in cp:
+                ca = [b.root(x) for x in c.args]
+                good &= ca[1] == "get(self.tree_size)"
+            # the only loop in the body is that bounded loop: every complete_parent call is
+            # dominated by the loop's `next` on the take iterator
+            nx = [c for c in b.calls if c.matches(r"Iterator>?::next$") and c.macros
+                  and c.macros[0] == "desugar:ForLoop"]
+            good &= len(nx) == 1 and all(b.must_pass_block(nx[0].bb, c.bb) for c in cp)
+            good &= "take(" in b.root(nx[0].args[0]) if nx else False
+        if good:
+            inv["I2"] = True
+            inv["I2_how"] = "walk bounded by take(audit_path_len(leaf_index, tree_size))"
     return inv
 
 
@@ -118,9 +193,13 @@ def merkle_triage(prog, rep, rule):
     t = dict(TRIAGE)
     # tree-internal helpers: never called from audit.rs (proof-driven code)
     callers_ok = True
+    inv = merkle_invariants(prog)
     for fn in TREE_INTERNAL:
         for owner, calls in prog.callers_of(fn).items():
             good = bool(TREE_INTERNAL_ALLOWED_CALLERS.search(owner))
+            if owner == M + "audit_path_len" and inv["I3"]:
+                # validated before use: tree_size <= MAX_TREE_SIZE and leaf inside the tree (I3)
+                good = True
             rep.check(good, rule, f"tree-internal:{short_name(fn)}<-{owner}",
                       f"{fn} (index arithmetic that asserts tree invariants) is called from "
                       f"{owner}, i.e. possibly with proof-supplied indices", calls[0].where())
@@ -136,16 +215,16 @@ def merkle_triage(prog, rep, rule):
     if set(cs) <= {M + "last_zero_bit"}:
         t[M + "last_set_bit|call:unwrap"] = \
             "x = i + 1 >= 1 (only caller is last_zero_bit, K1-checked); x - (..&x) <= x"
-    inv = merkle_invariants(prog)
-    rep.note(f"{rule}: merkle proof invariants established by try_into_proof: {inv}")
+    rep.note(f"{rule}: merkle proof invariants: {inv}")
     if inv["I1"]:
         t[M + "leaf_index_to_tree_index|call:unwrap"] = (
-            "leaf_index * 2 < tree_size was established by try_into_proof (I1), and that "
-            "validation does not itself use the panicking helper")
+            "every proof-driven call site validates the same index first (I1): behind "
+            "is_leaf_index_in_tree / audit_path_len, which use overflow-free arithmetic")
     if inv["I2"]:
         t[M + "last_zero_bit|call:unwrap"] = (
-            "i + 1 overflows only when the climb passes the root; the audit path length equals "
-            "the leaf's depth (I2, established by try_into_proof), so the climb stops at the root")
+            "i + 1 overflows only when the climb passes the root; " + inv.get("I2_how", "") +
+            " (I2), so the climb stops at the root. That the climb from an in-tree index reaches "
+            "complete_root(n) is an arithmetic argument that is trusted, not decided")
     # perfect_parent `zero << 1`: shift amount is the constant 1 -> discharged mechanically
     # "infallible conversion" expects: callee has no Err exit
     for owner, callee in (
